@@ -382,6 +382,43 @@ class FnView:
             env[("param", i)] = a
         return subst_plain(t, env)
 
+    def origin(self, n, _depth=0):
+        """Follow moves: a local bound (immutably) to another local, to a component of a tuple expression or to the
+        tail of a block is the same value as that expression.  Returns the expression node where the value is made
+        (a `local` node when it is a mutable / parameter / pattern-bound local)."""
+        while n is not None and _depth < 40:
+            _depth += 1
+            k = n.get("k")
+            if k == "block" and n.get("expr") is not None:
+                n = n["expr"]
+                continue
+            if k == "local":
+                b = self.binds.get(n["id"])
+                if b is None or b["mut"] or n["id"] in self.assigned:
+                    return n
+                v = b["val"]
+                projs = []
+                while v[0] == "proj":
+                    projs.append(v[1])
+                    v = v[2]
+                if v[0] != "node" or v[1] is None:
+                    return n
+                src = v[1]
+                ok = True
+                for i in reversed(projs):
+                    src = self.origin(src, _depth)
+                    if src is not None and src.get("k") == "tup" and i < len(src.get("es", [])):
+                        src = src["es"][i]
+                    else:
+                        ok = False
+                        break
+                if not ok:
+                    return n
+                n = src
+                continue
+            return n
+        return n
+
     # -- navigation helpers
     def ancestors(self, n):
         p = self.parent.get(id(n))
